@@ -911,6 +911,7 @@ impl Real {
                     _ => panic!("harness: bad fadt call"),
                 };
             }
+            (Real::Facs(f), Op::FacsSet { idx, v }) => facs_set_field(f, *idx as usize, *v),
             (Real::Sdt(t), Op::Sdt(s)) => apply_sdt(t, s),
             (_, o) => panic!("harness: op {:?} not valid for this table", o),
         }
